@@ -13,12 +13,12 @@ import os, json, io, contextlib, collections, base64
 from . import common
 from . import lib_mol, lib_ast, lib_ringgen as RG, lib_embeds as EM, lib_molgen as MG
 
-PROPS = ['PGA.Props.C08']
+PROPS = ['PGA.Props.C08', 'PGA.Props.C08Cap']
 GEN = ['Chars', 'MolQuery']
 OBLIGATIONS = ['PGA.C08.' + t for t in [
     'C08_tab_ops', 'C08_tab_bondwords', 'C08_tab_cn', 'C08_words_as_reference',
     'C08_matches_iff_partial', 'C08_fragment_matches_iff_partial', 'C08_matches_nodup', 'C08_matches_iff_full_fails',
-    'C08_cap_inactive', 'C08_capped_iff_partial', 'C08_truncated_sound',
+    'C08_cap_inactive', 'C08_capped_iff_partial', 'C08_truncated_sound', 'C08_capped_iff_full_fails',
     'C08_read_wf', 'C08_alpha_read_partial', 'C08_alpha_matches_partial', 'C08_labels_irrelevant']]
 RULE = ('cases = (fragment, molecule) pairs. Fragments: bounded-exhaustive one- and two-atom fragments (every symbol '
         'class x suffix, x prefix, every legal molecule-prefix combination, every constraint form x negation x operator '
@@ -186,6 +186,11 @@ def frag_wants(frag):
             for c in a['chain']:
                 if c[0] in ('ringsize', 'nring') and not c[1]:
                     w.add('ring')
+                if c[0] == 'conn' and not c[1] and (c[2] is None or c[2] in ((None, 1), ('>=', 1), ('>', 0), ('=', 1))):
+                    if BOND_FEAT.get(c[4]):
+                        w.add(BOND_FEAT[c[4]])
+                    if c[3]['sym'] in SYM_FEAT:
+                        w.add(SYM_FEAT[c[3]['sym']])
         elif it[0] == 'stereo':
             w.add('stereo')
     for p in frag['molprefix']:
@@ -668,7 +673,8 @@ REACH = (['hit_suffix_' + s for s in ['none', '+', '-', '.', ':', '+.', '-.', '?
          ['hit_molprefix_' + p for p in RG.CHARGE_PREFIX + RG.KIND_PREFIX + RG.RING_PREFIX] +
          ['hit_sym_' + s for s in RG.CLASS_SYMS + ['element']] +
          ['hit_cons_%s%s_%s' % (n, f, o) for n in ('', '!') for f in ('conn', 'ringsize', 'radical', 'nring') for o in ('>', '<', '>=', '<=', '=', 'noop')] +
-         ['hit_cons_conn_default', 'hit_cons_!conn_default'])
+         ['hit_cons_conn_default', 'hit_cons_!conn_default'] +
+         ['hit_connbond_' + b for b in RG.BONDS + ['default']])
 
 
 def reach_floor(ctx):
